@@ -2,9 +2,14 @@ import PGM.Proofs.Semantics
 import PGM.Proofs.VECorrect
 import PGM.Proofs.BPCorrect
 import PGM.Model.Solvers
+import PGM.Proofs.CoherentSolvers
+import PGM.Proofs.CoherentFactor
+import Mathlib.Data.List.GetD
 /-! statements for C08 (the returned model is one coherent distribution) -/
 namespace PGM.Coherent
 open PGM PGM.JT PGM.GM PGM.Sem PGM.Solvers
+set_option linter.unusedSectionVars false
+set_option linter.unusedVariables false
 
 section solvers
 variable {α : Type} [Scalar α]
@@ -15,22 +20,22 @@ unset, or they are exactly `bp` of the returned parameters; for every oracle `bp
 theorem md_exit_pair (bp : CliqueVec α → CliqueVec α) (lossgrad : CliqueVec α → α × CliqueVec α)
     (iters : Nat) (theta0 : CliqueVec α) (alpha0 : α) :
     let r := mirrorDescent bp lossgrad iters theta0 alpha0
-    r.marginals = none ∨ r.marginals = some (bp r.potentials) := by
-  sorry
+    r.marginals = none ∨ r.marginals = some (bp r.potentials) :=
+  md_exit_pair_aux bp lossgrad iters theta0 alpha0
 
 /-- dual averaging / interior gradient return the refit of the marginals they return (or leave the
 marginals unset on the early return) -/
 theorem rda_exit (bp : CliqueVec α → CliqueVec α) (grad mleF : CliqueVec α → CliqueVec α) (d : Dom)
     (cliques : List Clique) (zeros : CliqueVec α) (iters : Nat) (theta0 : CliqueVec α) (L total : α) :
     let r := dualAveraging bp grad mleF d cliques zeros iters theta0 L total
-    r.marginals = none ∨ ∃ w, r.marginals = some w ∧ r.potentials = mleF w := by
-  sorry
+    r.marginals = none ∨ ∃ w, r.marginals = some w ∧ r.potentials = mleF w :=
+  rda_exit_aux bp grad mleF d cliques zeros iters theta0 L total
 
 theorem ig_exit (bp : CliqueVec α → CliqueVec α) (grad mleF : CliqueVec α → CliqueVec α)
     (iters : Nat) (theta0 : CliqueVec α) (L total : α) :
     let r := interiorGradient bp grad mleF iters theta0 L total
-    ∃ w, r.marginals = some w ∧ r.potentials = mleF w := by
-  sorry
+    ∃ w, r.marginals = some w ∧ r.potentials = mleF w :=
+  ig_exit_aux bp grad mleF iters theta0 L total
 end solvers
 
 variable {K : Type} [Field K] [LinearOrder K] [IsStrictOrderedRing K]
@@ -56,18 +61,242 @@ theorem bp_realisable (d : Dom) (cliques : List Clique) (t : Tree) (order : List
     (pots : CliqueVec (LogOf K)) (hok : ModelOK d cliques t order pots) (total : LogOf K)
     (hcanon : ∀ p ∈ pots, p.2.dom = d.project p.1) (htot : 0 ≤ total.v) (hZ : partition d pots ≠ 0) :
     Realisable d cliques ((beliefPropagation cliques order pots total).map (fun p => (p.1, toPlain p.2))) := by
-  sorry
+  have hd := hok.dom_wf
+  have mk := BP.mok_of_modelOK d cliques t order pots hok
+  have hbpkeys : (beliefPropagation cliques order pots total).map Prod.fst = cliques := by
+    unfold beliefPropagation
+    dsimp only
+    rw [List.map_map]
+    exact List.map_id' _
+  -- the table returned for a clique
+  have hget : ∀ c ∈ cliques, (beliefPropagation cliques order pots total).get c
+      = (((bpLoop order pots).1.get c).iaddScalar
+          (Scalar.sub (Scalar.log total) (logZ cliques order pots))).exp := by
+    intro c hc
+    unfold beliefPropagation CliqueVec.get
+    dsimp only
+    rw [BP.lookup_map_self cliques _ c hc]
+    rfl
+  have htab : ∀ c ∈ cliques, ((beliefPropagation cliques order pots total).get c).WF ∧
+      ((beliefPropagation cliques order pots total).get c).dom = d.project c := by
+    intro c hc
+    have hcn : c ∈ t.nodes := by rw [hok.nodes]; exact hc
+    obtain ⟨hbw, hbd, _⟩ := BP.final_belief mk c hcn
+    rw [hget c hc]
+    refine ⟨iaddScalar_exp_WF _ _ hbw, ?_⟩
+    show ((bpLoop order pots).1.get c).dom = _
+    rw [hbd]
+    exact hcanon _ (get_mem pots c (by rw [hok.keys]; exact hc))
+  have hwget : ∀ c ∈ cliques,
+      CliqueVec.get ((beliefPropagation cliques order pots total).map (fun p => (p.1, toPlain p.2))) c
+        = toPlain ((beliefPropagation cliques order pots total).get c) := by
+    intro c hc
+    exact get_map_of_mem (beliefPropagation cliques order pots total) (fun _ f => toPlain f) c
+      (by rw [hbpkeys]; exact hc)
+  refine ⟨?_, ?_, fun τ => total.v * joint pots τ / partition d pots, ?_, ?_, ?_⟩
+  · rw [keys_map _ (fun _ f => toPlain f)]
+    exact hbpkeys
+  · intro p hp
+    have hp1 : p.1 ∈ cliques := by
+      rw [← hbpkeys, ← keys_map _ (fun _ f => toPlain f)]
+      exact List.mem_map_of_mem hp
+    obtain ⟨q, hq, rfl⟩ := List.mem_map.mp hp
+    have hq1 : q.1 ∈ cliques := hp1
+    have hq2 : q.2 = (beliefPropagation cliques order pots total).get q.1 := by
+      have hnd : ((beliefPropagation cliques order pots total).map Prod.fst).Nodup := by
+        rw [hbpkeys, ← hok.nodes]
+        exact (treeFacts t (BP.isTree_of_check hok.jt)).nodes_nodup
+      exact (BP.get_of_lookup _ _ _ (BP.lookup_of_nodup_keys _ hnd q hq)).symm
+    obtain ⟨h1, h2⟩ := htab q.1 hq1
+    show (toPlain q.2).WF ∧ (toPlain q.2).dom = d.project q.1
+    rw [hq2]
+    exact ⟨toPlain_WF _ h1, h2⟩
+  · intro τ
+    apply div_nonneg (mul_nonneg htot (joint_nonneg hok τ))
+    exact sumOver_nonneg d _ _ _ (fun _ _ => joint_nonneg hok _)
+  · intro τ τ' hττ
+    have hdep : DependsOn (joint pots) d.attrs := by
+      have := dependsOn_prod (fun x : LogOf K => x.v) (pots.map Prod.snd) d.attrs (by
+        intro f hf a ha
+        obtain ⟨p, hp, rfl⟩ := List.mem_map.mp hf
+        have hp1 : p.1 ∈ cliques := by rw [← hok.keys]; exact List.mem_map_of_mem hp
+        exact (hok.clique_ok p.1 hp1).2 a ((hok.pot_ok p hp).2.1.mem_iff.mp ha))
+      intro σ σ' h
+      rw [← prod_snd_eq_joint, ← prod_snd_eq_joint]
+      exact this σ σ' h
+    show total.v * joint pots τ / partition d pots = total.v * joint pots τ' / partition d pots
+    rw [hdep τ τ' hττ]
+  · intro c hc σ hσ
+    obtain ⟨h1, h2⟩ := htab c hc
+    obtain ⟨hOK, _⟩ := factorOK_of_dom d _ c h1 h2 (hok.clique_ok c hc).2
+    rw [hwget c hc, toPlain_sem _ h1 σ (hOK.valid hd hσ),
+      (BP.bp_marginals d cliques t order pots hok total hZ c hc σ hσ).2]
+    show _ = sumOver d (d.invert c) σ (fun τ => total.v * joint pots τ / partition d pots)
+    rw [sumOver_div, sumOver_mul_left]
+    rfl
 
 /-- nonnegative combinations of realisable vectors are realisable (the averaged iterates of RDA/IG) -/
 theorem realisable_combination (d : Dom) (cliques : List Clique) (x y : CliqueVec (PlainOf K)) (a b : K)
     (hd : d.WF) (hcl : ∀ c ∈ cliques, c.Nodup ∧ ∀ a ∈ c, a ∈ d.attrs) (hcn : cliques.Nodup)
     (ha : 0 ≤ a) (hb : 0 ≤ b) (hx : Realisable d cliques x) (hy : Realisable d cliques y) :
     Realisable d cliques (CliqueVec.addV (CliqueVec.smul ⟨a⟩ x) (CliqueVec.smul ⟨b⟩ y)) := by
-  sorry
+  obtain ⟨hxk, hxw, Px, hPx0, hPxd, hPx⟩ := hx
+  obtain ⟨hyk, hyw, Py, hPy0, hPyd, hPy⟩ := hy
+  -- the scaled tables
+  have hsm : ∀ (s : K) (z : CliqueVec (PlainOf K)), z.map Prod.fst = cliques →
+      (∀ p ∈ z, p.2.WF ∧ p.2.dom = d.project p.1) → ∀ c ∈ cliques,
+      (CliqueVec.smul ⟨s⟩ z).get c = (z.get c).mulScalar ⟨s⟩ ∧
+      ((z.get c).mulScalar ⟨s⟩).WF ∧ ((z.get c).mulScalar ⟨s⟩).dom = d.project c ∧
+      ∀ σ, d.Valid σ → ((((z.get c).mulScalar ⟨s⟩)).sem σ).v = s * ((z.get c).sem σ).v := by
+    intro s z hzk hzw c hc
+    have hm := get_mem z c (by rw [hzk]; exact hc)
+    obtain ⟨h1, h2⟩ := hzw _ hm
+    obtain ⟨hOK, _⟩ := factorOK_of_dom d _ c h1 h2 (hcl c hc).2
+    refine ⟨get_map_of_mem z (fun _ f => f.mulScalar (⟨s⟩ : PlainOf K)) c (by rw [hzk]; exact hc),
+      mapVals_WF _ _ h1, h2, fun σ hσ => ?_⟩
+    show ((Factor.mk' (z.get c).dom ((z.get c).vals.map
+      (fun v => Scalar.nanToNum (Scalar.mul ⟨s⟩ v)))).sem σ).v = _
+    rw [sem_mapVals _ _ σ h1 (hOK.valid hd hσ)]
+    rfl
+  have hkeys1 : (CliqueVec.smul (⟨a⟩ : PlainOf K) x).map Prod.fst = cliques := by
+    rw [← hxk]; exact keys_map x (fun _ f => f.mulScalar (⟨a⟩ : PlainOf K))
+  have hzget : ∀ c ∈ cliques,
+      (CliqueVec.addV (CliqueVec.smul ⟨a⟩ x) (CliqueVec.smul ⟨b⟩ y)).get c
+        = ((x.get c).mulScalar ⟨a⟩).add ((y.get c).mulScalar ⟨b⟩) := by
+    intro c hc
+    have := get_map_of_mem (CliqueVec.smul (⟨a⟩ : PlainOf K) x)
+      (fun k f => f.add ((CliqueVec.smul (⟨b⟩ : PlainOf K) y).get k)) c (by rw [hkeys1]; exact hc)
+    show CliqueVec.get (List.map _ _) c = _
+    rw [this, (hsm a x hxk hxw c hc).1, (hsm b y hyk hyw c hc).1]
+  have hztab : ∀ c ∈ cliques,
+      (((x.get c).mulScalar ⟨a⟩).add ((y.get c).mulScalar ⟨b⟩)).WF ∧
+      (((x.get c).mulScalar ⟨a⟩).add ((y.get c).mulScalar ⟨b⟩)).dom = d.project c := by
+    intro c hc
+    obtain ⟨_, h1, h2, _⟩ := hsm a x hxk hxw c hc
+    obtain ⟨_, h3, h4, _⟩ := hsm b y hyk hyw c hc
+    obtain ⟨h5, h6⟩ := binop_same_dom Scalar.add _ _ h1 h3 (h4.trans h2.symm)
+    exact ⟨h5, h6.trans h2⟩
+  refine ⟨?_, ?_, fun τ => a * Px τ + b * Py τ, ?_, ?_, ?_⟩
+  · rw [← hkeys1]
+    exact keys_map _ (fun k f => f.add ((CliqueVec.smul (⟨b⟩ : PlainOf K) y).get k))
+  · intro p hp
+    unfold CliqueVec.addV at hp
+    obtain ⟨q, hq, rfl⟩ := List.mem_map.mp hp
+    have hq1 : q.1 ∈ cliques := by rw [← hkeys1]; exact List.mem_map_of_mem hq
+    unfold CliqueVec.smul at hq
+    obtain ⟨r, hr, rfl⟩ := List.mem_map.mp hq
+    have hr1 : r.1 ∈ cliques := hq1
+    have hr2 : r.2 = x.get r.1 := by
+      have hnd : (x.map Prod.fst).Nodup := by rw [hxk]; exact hcn
+      exact (BP.get_of_lookup _ _ _ (BP.lookup_of_nodup_keys _ hnd r hr)).symm
+    dsimp only
+    rw [(hsm b y hyk hyw r.1 hr1).1, hr2]
+    exact hztab r.1 hr1
+  · intro τ
+    exact add_nonneg (mul_nonneg ha (hPx0 τ)) (mul_nonneg hb (hPy0 τ))
+  · intro τ τ' h
+    show a * Px τ + b * Py τ = a * Px τ' + b * Py τ'
+    rw [hPxd τ τ' h, hPyd τ τ' h]
+  · intro c hc σ hσ
+    obtain ⟨_, h1, h2, h3⟩ := hsm a x hxk hxw c hc
+    obtain ⟨_, h4, h5, h6⟩ := hsm b y hyk hyw c hc
+    obtain ⟨hOK1, _⟩ := factorOK_of_dom d _ c h1 h2 (hcl c hc).2
+    obtain ⟨hOK2, _⟩ := factorOK_of_dom d _ c h4 h5 (hcl c hc).2
+    rw [hzget c hc]
+    show ((Factor.binop Scalar.add ((x.get c).mulScalar (⟨a⟩ : PlainOf K)) ((y.get c).mulScalar ⟨b⟩)).sem σ).v = _
+    rw [sem_binop_ok Scalar.add hd hOK1 hOK2 hσ, plain_add_v, h3 σ hσ, h6 σ hσ, hPx c hc σ hσ,
+      hPy c hc σ hσ, ← sumOver_mul_left, ← sumOver_mul_left, ← sumOver_add]
 
 /-- total mass of a marginal vector, read off a clique table -/
 def mass (d : Dom) (w : CliqueVec (PlainOf K)) (c : Clique) : K :=
   sumOver d c (fun _ => 0) (fun τ => ((w.get c).sem τ).v)
+
+/-! ### helpers for the round trip -/
+
+theorem toLog_WF (f : Factor (PlainOf K)) (hf : f.WF) : (toLog f).WF :=
+  ⟨hf.1, hf.2.1, NdArr.map_WF (fun x : PlainOf K => (⟨x.v⟩ : LogOf K)) f.vals hf.2.2⟩
+
+theorem toLog_sem (f : Factor (PlainOf K)) (hf : f.WF) (σ : Attr → Nat) (hσ : f.dom.Valid σ) :
+    ((toLog f).sem σ).v = (f.sem σ).v := by
+  unfold Factor.sem
+  show ((f.vals.map (fun x : PlainOf K => (⟨x.v⟩ : LogOf K))).get (f.dom.attrs.map σ)).v = _
+  rw [NdArr.get_map _ _ _ hf.2.2 (by rw [hf.2.1]; exact Factor.inRange_of_valid _ hf.1 σ hσ)]
+
+theorem toLog_OK {d : Dom} (f : Factor (PlainOf K)) (hf : FactorOK d f) : FactorOK d (toLog f) :=
+  ⟨toLog_WF f hf.1, hf.2.1, hf.2.2⟩
+
+/-- the clique tables read as functions of the assignment -/
+def Wof (w : CliqueVec (PlainOf K)) : Clique → (Attr → Nat) → K := fun c τ => ((w.get c).sem τ).v
+
+/-- one step of `mle` -/
+def mleStep (w : CliqueVec (PlainOf K)) (st : List Attr × CliqueVec (LogOf K)) (cl : Clique) :
+    List Attr × CliqueVec (LogOf K) :=
+  (JT.union st.1 cl, st.2 ++ [(cl, (toLog (w.get cl)).sub
+    (toLog ((w.get cl).projectSum (cl.filter (fun a => st.1.contains a)))))])
+
+theorem mle_eq (cliques : List Clique) (w : CliqueVec (PlainOf K)) :
+    mle toLog cliques w = (cliques.foldl (mleStep w) ([], [])).2 := rfl
+
+/-- exp-space value of one refit potential -/
+theorem pot_sem (d : Dom) (hd : d.WF) (m : Factor (PlainOf K)) (c : Clique) (hm : m.WF)
+    (hdom : m.dom = d.project c) (hcn : c.Nodup) (hsub : ∀ a ∈ c, a ∈ d.attrs) (vars : List Attr)
+    (τ : Attr → Nat) (hτ : d.Valid τ) :
+    (((toLog m).sub (toLog (m.projectSum (sepOf vars c)))).sem τ).v
+      = (m.sem τ).v * inv' (sumOver d (restOf vars c) τ (fun ρ => (m.sem ρ).v)) := by
+  obtain ⟨hOK, hattrs⟩ := factorOK_of_dom d m c hm hdom hsub
+  have hnd : (sepOf vars c).Nodup := List.Nodup.sublist List.filter_sublist hcn
+  have hsub' : ∀ a ∈ sepOf vars c, a ∈ m.dom.attrs := by
+    intro a ha; rw [hattrs]; exact ((mem_sepOf vars c a).mp ha).1
+  have hP : FactorOK d (m.projectSum (sepOf vars c)) :=
+    FactorOK.project Scalar.sum (sepOf vars c) hOK hnd hsub'
+  have h1 := toLog_OK m hOK
+  have h2 := toLog_OK _ hP
+  have hv : ((toLog m).dom.merge (toLog (m.projectSum (sepOf vars c))).dom).Valid τ := by
+    have := (FactorOK.binop Scalar.add h1 h2).valid hd hτ
+    rwa [Factor.binop_dom] at this
+  rw [Factor.sem_sub _ _ τ h1.1 h2.1 (h1.compatible h2) hv, log_add_v, negInfAware_v,
+    toLog_sem m hm τ (hOK.valid hd hτ), toLog_sem _ hP.1 τ (hP.valid hd hτ)]
+  congr 2
+  show ((Factor.project Scalar.sum m (sepOf vars c)).sem τ).v = _
+  rw [val_sem_project Scalar.sum (fun x : PlainOf K => x.v) plain_sum_v hd hOK _ hnd hsub' hτ]
+  have : m.dom.invert (sepOf vars c) = restOf vars c := by
+    unfold Dom.invert restOf
+    rw [hattrs]
+  rw [this]
+
+/-- the running-intersection order, read latest clique first -/
+theorem ripr_of_prefix (cliques : List Clique) (hrip : RIPOrder cliques) :
+    ∀ rl : List Clique, rl.reverse <+: cliques → RIPr rl := by
+  intro rl
+  induction rl with
+  | nil => intro _; trivial
+  | cons c r ih =>
+    intro hpre
+    obtain ⟨t, ht⟩ := hpre
+    have hpre' : r.reverse <+: cliques := ⟨[c] ++ t, by rw [← ht]; simp⟩
+    refine ⟨?_, ih hpre'⟩
+    by_cases hr : r = []
+    · exact Or.inl hr
+    · right
+      have hlen : r.length < cliques.length := by rw [← ht]; simp
+      have hpos : 0 < r.length := List.length_pos_iff.mpr hr
+      have hci : cliques[r.length] = c := by
+        subst ht
+        simp
+      have hgetD : ∀ k, k < r.length → cliques.getD k [] = r.reverse.getD k [] := by
+        intro k hk
+        rw [← ht, List.reverse_cons, List.append_assoc]
+        exact List.getD_append _ _ _ _ (by simpa using hk)
+      obtain ⟨j, hj, hprop⟩ := hrip r.length hlen hpos
+      have hjl : j < r.reverse.length := by simpa using hj
+      refine ⟨r.reverse[j], List.mem_reverse.mp (List.getElem_mem hjl), ?_⟩
+      intro a ha hex
+      obtain ⟨ck, hck, hack⟩ := hex
+      obtain ⟨k, hk, hkeq⟩ := List.getElem_of_mem (List.mem_reverse.mpr hck)
+      have hk' : k < r.length := by simpa using hk
+      have := hprop a (by rw [hci]; exact ha)
+        ⟨k, hk', by rw [hgetD k hk', List.getD_eq_getElem _ _ hk, hkeq]; exact hack⟩
+      rwa [hgetD j hj, List.getD_eq_getElem _ _ hjl] at this
 
 /-- **refit round trip**: for a junction tree whose cliques are listed in a running-intersection
 order and any realisable marginal vector `w` of positive total mass `T`, the parameters `mle w`
@@ -81,6 +310,114 @@ theorem mle_roundtrip (d : Dom) (cliques : List Clique) (w : CliqueVec (PlainOf 
     (c : Clique) (hc : c ∈ cliques) (σ : Attr → Nat) (hσ : d.Valid σ) :
     partition d (mle toLog cliques w) = 1 ∧
     marginal d (mle toLog cliques w) c σ = ((w.get c).sem σ).v / mass d w (cliques.headD []) := by
-  sorry
+  obtain ⟨hk, hwf, P, hP0, hPd, hPr⟩ := hw
+  let σ0 : Attr → Nat := fun _ => 0
+  have hσ0 : d.Valid σ0 := fun p hp => hsizes p hp
+  have hne : cliques ≠ [] := List.ne_nil_of_mem hc
+  have hhead : cliques.headD [] ∈ cliques := by
+    cases cliques with
+    | nil => exact absurd rfl hne
+    | cons c0 cs => simp
+  -- facts about the stored tables
+  have htab : ∀ c ∈ cliques, (w.get c).WF ∧ (w.get c).dom = d.project c := by
+    intro c hc
+    exact hwf _ (get_mem w c (by rw [hk]; exact hc))
+  -- every clique table has the same total mass
+  have hinv0 : d.invert [] = d.attrs := by unfold Dom.invert; simp
+  have hmass : ∀ c ∈ cliques, mass d w c = sumOver d d.attrs σ0 P := by
+    intro c hc
+    show sumOver d c σ0 (fun τ => ((w.get c).sem τ).v) = _
+    rw [sumOver_congr_valid d hd _ σ0 _ _ hσ0 (fun τ hτ => hPr c hc τ hτ),
+      marg_merge d hd P c [] c (hcl c hc).1 (fun _ h => h) (hcl c hc).2
+        (fun a _ => by simp) σ0, hinv0]
+  set T := mass d w (cliques.headD []) with hTdef
+  have hT0 : T ≠ 0 := ne_of_gt hT
+  have hyp : TreeHyp d (Wof w) P T cliques.reverse := by
+    refine ⟨hd, hP0, hT0, ?_, ?_, ?_, ?_⟩
+    · intro σ hσ
+      rw [hTdef, hmass _ hhead]
+      exact sumOver_base_congr_of_dependsOn d d.attrs d.attrs σ σ0 P hPd
+        (fun a ha hn => absurd ha hn)
+    · intro c hc; exact hcl c (List.mem_reverse.mp hc)
+    · intro c hc σ τ h
+      have hc' := List.mem_reverse.mp hc
+      obtain ⟨h1, h2⟩ := htab c hc'
+      show ((w.get c).sem σ).v = ((w.get c).sem τ).v
+      rw [sem_congr (w.get c) σ τ (by rw [h2, Dom.attrs_project]; exact h)]
+    · intro c hc σ hσ
+      exact hPr c (List.mem_reverse.mp hc) σ hσ
+  have hripr : RIPr cliques.reverse :=
+    ripr_of_prefix cliques hrip cliques.reverse (by rw [List.reverse_reverse])
+  -- the joint of the refit is the product of conditionals
+  have hfold : ∀ rl : List Clique, (∀ c ∈ rl, c ∈ cliques) →
+      (∀ a, a ∈ (rl.reverse.foldl (mleStep w) ([], [])).1 ↔ a ∈ rl.flatten) ∧
+      ∀ τ, d.Valid τ → joint (rl.reverse.foldl (mleStep w) ([], [])).2 τ = Qr d (Wof w) rl τ := by
+    intro rl
+    induction rl with
+    | nil =>
+      intro _
+      refine ⟨fun a => by simp, fun τ _ => ?_⟩
+      simp [joint, Qr]
+    | cons c r ih =>
+      intro hsub
+      obtain ⟨ih1, ih2⟩ := ih (fun c' hc' => hsub c' (List.mem_cons_of_mem _ hc'))
+      have hcc : c ∈ cliques := hsub c (by simp)
+      rw [List.reverse_cons, List.foldl_append]
+      simp only [List.foldl_cons, List.foldl_nil]
+      generalize (r.reverse.foldl (mleStep w) ([], [])) = st at ih1 ih2
+      refine ⟨fun a => ?_, fun τ hτ => ?_⟩
+      · show a ∈ JT.union st.1 c ↔ _
+        rw [mem_union, ih1 a, List.flatten_cons, List.mem_append]
+        tauto
+      · show joint (st.2 ++ [(c, (toLog (w.get c)).sub
+          (toLog ((w.get c).projectSum (sepOf st.1 c))))]) τ = Qr d (Wof w) r τ * potF d (Wof w) r.flatten c τ
+        rw [joint_append, joint_single, ih2 τ hτ, sepOf_congr st.1 r.flatten c ih1,
+          pot_sem d hd (w.get c) c (htab c hcc).1 (htab c hcc).2 (hcl c hcc).1 (hcl c hcc).2 _ τ hτ]
+        rfl
+  have hjoint : ∀ τ, d.Valid τ → joint (mle toLog cliques w) τ = Qr d (Wof w) cliques.reverse τ := by
+    intro τ hτ
+    have := (hfold cliques.reverse (fun c hc => List.mem_reverse.mp hc)).2 τ hτ
+    rw [List.reverse_reverse] at this
+    rw [mle_eq]
+    exact this
+  -- with every attribute covered, the attributes outside `c` are all the others
+  have hU : ∀ c ∈ cliques, Uminus d cliques.reverse c = d.invert c := by
+    intro c hc
+    unfold Uminus Dom.invert
+    apply List.filter_congr
+    intro a ha
+    obtain ⟨c', hc', hac'⟩ := hcover a ha
+    have : (cliques.reverse.any fun c' => c'.contains a) = true := by
+      rw [List.any_eq_true]
+      exact ⟨c', List.mem_reverse.mpr hc', by simpa using hac'⟩
+    rw [this, Bool.true_and]
+  have hmarg : ∀ c ∈ cliques, ∀ σ, d.Valid σ →
+      marginal d (mle toLog cliques w) c σ = ((w.get c).sem σ).v / T := by
+    intro c hc σ hσ
+    unfold marginal
+    rw [sumOver_congr_valid d hd _ σ _ _ hσ hjoint, ← hU c hc]
+    exact tree_marginals hyp hripr c (List.mem_reverse.mpr hc) σ hσ
+  refine ⟨?_, hmarg c hc σ hσ⟩
+  unfold partition
+  have hsplit := sumOver_merge d c (d.invert c) d.attrs σ0 (joint (mle toLog cliques w))
+    (hcl c hc).1 (invert_nodup d hd c) hd
+    (fun a ha hm => ((mem_invert d c a).mp hm).2 ha)
+    (fun a => by
+      rw [mem_invert]
+      constructor
+      · intro h
+        by_cases hac : a ∈ c
+        · exact Or.inl hac
+        · exact Or.inr ⟨h, hac⟩
+      · rintro (h | h)
+        · exact (hcl c hc).2 a h
+        · exact h.1)
+  rw [← hsplit]
+  show sumOver d c σ0 (marginal d (mle toLog cliques w) c) = 1
+  rw [sumOver_congr_valid d hd _ σ0 _ _ hσ0 (fun τ hτ => hmarg c hc τ hτ), sumOver_div]
+  have : sumOver d c σ0 (fun τ => ((w.get c).sem τ).v) = T := by
+    rw [hTdef, hmass _ hhead, ← hmass c hc]
+    rfl
+  rw [this, div_self hT0]
 
 end PGM.Coherent
